@@ -40,6 +40,7 @@ fn neutralise_keyword_directives(t: &str) -> String {
 const CAPS: &[usize] = &[1, 2, 3, 5, 8, 16, 64, 256, 4096, 0];
 const MAX_REF_STEPS: u64 = 6000;
 const FLAG_AWARE_BUDGET: u64 = 3_000_000;
+const MAX_DISCRIMINATED: usize = 4;
 
 fn run_one(sc: &Scenario, call: &Call, budget: u64) -> Result<(CallOutcome, u64), String> {
     let mut one = sc.clone();
@@ -168,7 +169,21 @@ impl Property for C17 {
         // covers every one of them several times; the other inputs are drawn
         let n_corpus = gen::corpus_sv_count();
         let systematic = gen::corpus_sv_nth((run as usize).wrapping_mul(7919).wrapping_add(seed as usize) % n_corpus.max(1), 1400);
-        let (mut text, lib) = match rng.below(14) {
+        let (mut text, lib) = match rng.below(15) {
+            14 => {
+                // pragmas with their expression lists broken over lines, between ordinary items
+                let mut t = String::from(if rng.coin() { "module m;\n" } else { "module m(zz_p);\n" });
+                let nonansi = t.contains("zz_p");
+                for i in 0..1 + rng.below(3) {
+                    t.push_str(&gen::pragma_lines(&mut rng));
+                    t.push_str(&format!("  logic b{};\n", i));
+                }
+                if nonansi {
+                    t.push_str("  input zz_p;\n");
+                }
+                t.push_str("endmodule\n");
+                (t, false)
+            }
             12 | 13 => (gen::netlist_program(&mut rng), false),
             0..=5 => (systematic.map(|s| s.to_string()).unwrap_or_else(|| gen::corpus_sv(&mut rng, 1400).to_string()), false),
             6 | 7 => {
@@ -181,7 +196,14 @@ impl Property for C17 {
             _ => (gen::lib_program(&mut rng), true),
         };
         if !lib && rng.chance(1, 3) {
-            text = gen::rewrap_nonansi(&text);
+            let after = match rng.below(6) {
+                0 => gen::pragma_lines(&mut rng),
+                1 => "`pragma protect begin_protected\n  wire env;\n`pragma protect end_protected\n".to_string(),
+                2 => "/* after header */\n".to_string(),
+                3 => "`timescale 1ns/1ps\n".to_string(),
+                _ => String::new(),
+            };
+            text = gen::rewrap_nonansi_with(&text, &after);
         }
         if rng.chance(1, 4) {
             // near-valid: what one alternative tolerates and memoises, another may replay
@@ -215,6 +237,8 @@ impl Property for C17 {
         let mut caps: Vec<usize> = CAPS.to_vec();
         caps.push(1 + rng.usize_below(40));
         caps.push(1 + rng.usize_below(2048));
+        caps.push(17 + rng.usize_below(500));
+        caps.push(300 + rng.usize_below(1200));
         for c in caps {
             let mut k = base.clone();
             k.memo_capacity = Some(c);
@@ -286,6 +310,7 @@ impl Property for C17 {
         }
         let budget = 40 * ref_steps + 20_000;
         let mut evicted_and_missed = false;
+        let mut discriminated = 0usize;
         for (i, c) in calls.iter().enumerate().skip(1) {
             let (o, steps) = match run_one(sc, c, budget) {
                 Ok(x) => x,
@@ -312,9 +337,13 @@ impl Property for C17 {
                 continue;
             }
             rep.probe("divergences_shipped_key", 1);
-            if !rep.violations.is_empty() || !rep.matched.is_empty() {
+            // every diverging capacity is discriminated on its own (up to MAX_DISCRIMINATED per run): a change that
+            // breaks the property usually diverges at several capacities, and one of them matching a listed finding
+            // must not excuse the others
+            if !rep.violations.is_empty() || discriminated >= MAX_DISCRIMINATED {
                 continue;
             }
+            discriminated += 1;
             // ---- a divergence: shrink, then discriminate with the flag-aware key
             let small = self.shrink_pair(sc, reference, c, &mut rep);
             let r2 = with_text(reference, &small);
@@ -342,6 +371,12 @@ impl Property for C17 {
             let mut frozen = sc.clone();
             frozen.threads = vec![vec![Op::Call(r2.clone()), Op::Call(c2.clone())]];
             // discriminator
+            // first discriminator: the flag-aware key (vendored fork): the table is keyed additionally on the
+            // left-recursion flags in force. (A second intervention was tried - shipped key, but hits on entries
+            // stored under other flags recomputed - and dropped: it does not remove every divergence of this
+            // defect, e.g. a spec snippet with cross-bin select expressions at capacity 416. Both interventions
+            // shift the eviction pattern, so a defect that shows only in a narrow band of capacities can vanish
+            // with them for no causal reason; that limit is stated in DESIGN.md.)
             let mut fa_r = r2.clone();
             fa_r.flag_aware = true;
             let mut fa_c = c2.clone();
@@ -355,8 +390,11 @@ impl Property for C17 {
                     match (accept(&fr), accept(&fc)) {
                         (Some(x), Some(y)) if x == y => {
                             v.detail = format!("{} [vanishes with a flag-aware memo key: the key (parser, position, in_directive) omits the left-recursion flags carried in the span - impl HasExtraState<bool> for SpanInfo, sv-parser-parser/src/lib.rs]", v.detail);
+                            rep.probe(&format!("finding1_at_capacity_{}", c.memo_capacity.map(|x| if x == 0 { "unbounded".to_string() } else if x > 4096 { "large".to_string() } else { x.to_string() }).unwrap_or_default()), 1);
                             rep.matched.push((KNOWN_ID.to_string(), v));
-                            rep.replay_scenario = Some(frozen);
+                            if rep.replay_scenario.is_none() {
+                                rep.replay_scenario = Some(frozen);
+                            }
                             if accept(&fr) != accept(&a) {
                                 rep.probe("flag_aware_differs_at_declared_capacity", 1);
                             }
@@ -366,17 +404,30 @@ impl Property for C17 {
                             // (replayed side effects, counted by the hook probe, are reported as supporting evidence)
                             let replay_div = b.kw_replayed_pushes + b.kw_replayed_effective_pops;
                             let replay_ref = a.kw_replayed_pushes + a.kw_replayed_effective_pops;
-                            // causal test: with the keyword set in force frozen to the default (hook knob; the stack is
-                            // still pushed and popped), do the two capacities agree? Then the divergence was mediated by
-                            // the keyword-version stack, whatever the route (replayed region push, result memoised under
-                            // another keyword set, entry leaked by a failed macro-name lexing).
-                            let version_in_play = small.contains('`');
+                            // Two routes of the listed keyword-stack finding, each with its own evidence and intervention:
+                            //  (a) a `begin_keywords region: a region push was executed (hook probe) and the two capacities
+                            //      agree once the keyword directives of the input are blanked out;
+                            //  (b) entries leaked by a failed macro-name lexing (text_macro_usage / text_macro_definition
+                            //      return through `?` between begin_keywords("directive") and end_keywords()): no region
+                            //      push at all, the version stack is non-empty after the parse (hook probe), and the two
+                            //      capacities agree when the keyword set in force is frozen to the default (hook knob).
+                            //      The freeze is used only here: with directives in the input it changes how they lex.
+                            let region = b.sites[4] + a.sites[4] > 0;
+                            let leaked = a.residue_after.1 + b.residue_after.1 > 0;
+                            let neutral = neutralise_keyword_directives(&small);
                             let mut attributed = false;
-                            if version_in_play {
+                            let (i1, i2) = if region && neutral != small {
+                                (Some(with_text(reference, &neutral)), Some(with_text(c, &neutral)))
+                            } else if !region && leaked {
                                 let mut f1 = with_text(reference, &small);
                                 f1.freeze_version = true;
                                 let mut f2 = with_text(c, &small);
                                 f2.freeze_version = true;
+                                (Some(f1), Some(f2))
+                            } else {
+                                (None, None)
+                            };
+                            if let (Some(f1), Some(f2)) = (i1, i2) {
                                 let n1 = run_one(sc, &f1, 400_000);
                                 let n2 = run_one(sc, &f2, 400_000);
                                 rep.execs += 2;
@@ -387,13 +438,16 @@ impl Property for C17 {
                                 }
                             }
                             if attributed {
-                                v.detail = format!("{} [persists with a flag-aware key; vanishes when the keyword set in force is frozen to the default ({} replayed region side effects in the diverging run vs {} in the reference): the keyword-version stack is mutated inside memoised parsers and consulted by memoised parsers without being part of the key (version_specifier / endkeywords_directive via white_space; is_keyword), sv-parser-parser/src/general/compiler_directives.rs, utils.rs]", v.detail, replay_div, replay_ref);
+                                v.detail = format!("{} [persists with a flag-aware key; keyword-stack route confirmed (region: directives blanked out / leak: keyword set frozen; {} replayed region side effects in the diverging run vs {} in the reference): the keyword-version stack is mutated inside memoised parsers and consulted by memoised parsers without being part of the key (version_specifier / endkeywords_directive via white_space; is_keyword), sv-parser-parser/src/general/compiler_directives.rs, utils.rs]", v.detail, replay_div, replay_ref);
                                 rep.matched.push((KNOWN_ID_KW.to_string(), v));
+                                if rep.replay_scenario.is_none() {
+                                    rep.replay_scenario = Some(frozen);
+                                }
                             } else {
-                                v.detail = format!("{} [persists with a flag-aware memo key: not the known recursion-flag finding; replayed keyword-region side effects: {} vs {}]", v.detail, replay_div, replay_ref);
+                                v.detail = format!("{} [persists with a flag-aware memo key (not the known recursion-flag finding) and when the keyword set is frozen (not the keyword-stack finding); replayed keyword-region side effects: {} vs {}]", v.detail, replay_div, replay_ref);
                                 rep.violations.push(v);
+                                rep.replay_scenario = Some(frozen);
                             }
-                            rep.replay_scenario = Some(frozen);
                         }
                         _ => rep.probe("unattributed_discriminator_budget", 1),
                     }
